@@ -240,7 +240,8 @@ def run_parsers(prop, tier):
                            "yield trace (S/O) or switch-point signature (L); non-trivial = at least one context switch happened")
             cov["enumeration"] = enum_info
             cov["faults_fired"] = {"context_switches": agg.stats["switches"] + agg.stats["enum_switches"],
-                                   "cancel_fired": agg.stats["cancel_fired"], "clock_jumps": agg.stats["clock_jumps"]}
+                                   "cancel_fired": agg.stats["cancel_fired"], "clock_jumps": agg.stats["clock_jumps"],
+                                   "constructor_fault_tasks": agg.stats["doomed_ctor_tasks"], "constructor_fault_raised": agg.stats["doomed_ctor_raised"]}
             cov["sensing"] = {"clock_reads_by_library": agg.stats["clock_reads_by_library"], "clock_slept_s": agg.stats["clock_slept_s"]}
             cov["probes"] = {"ctor_during_other_run": agg.stats["ctor_during_other_run"], "exc_outcomes": agg.stats["exc_outcomes"],
                              "line_points": agg.stats["line_points"], "label_points": agg.stats["label_points"], "lock_waits": agg.stats["lock_waits"],
